@@ -47,7 +47,12 @@ def run_obligation(pkg, fn, hook=None, max_paths=256):
             global CURRENT
             CURRENT = it
             try:
-                return ("ok", fn(it), True)
+                res = fn(it)
+                thr = [e for e in it.events if e[0] == "size-threshold"]
+                if thr:
+                    raise Unsupported("the behaviour depends on the size of a collection (%s): a finite scenario cannot speak for larger "
+                                      "inputs" % thr[0][1])
+                return ("ok", res, True)
             except ObFail as e:
                 return ("fail", e.detail, it.equalities()[1])
             except PathRaise:
